@@ -87,6 +87,7 @@ def relocate(payload, root):
         f["origin"] = fix(f["origin"])
     for f in payload["files"]:
         f["origin"] = fix(f["origin"])
+    payload["target"]["origin"] = fix(payload["target"]["origin"])     # a target given by its absolute path
     return payload
 
 
